@@ -746,7 +746,8 @@ def _segments(chk, repo, mod, W):
                "piecewise-linear shape" + (": " + why if not ok and 'why' in dir() else ""), node=fn)
     # attack
     at = repo.find(LS, "attack")
-    loops = [s for s in docstring_free(at.body) if isinstance(s, ast.For)]
+    # the two counted ramps (the sustain loop, when it is a top-level ``for`` over the sustain iterator, is not one of them)
+    loops = [s for s in docstring_free(at.body) if isinstance(s, ast.For) and unparse(s.iter) != "it_s"]
     ok = len(loops) == 2
     if ok:
         env = {}
@@ -789,6 +790,12 @@ def _segments(chk, repo, mod, W):
                 okk = took and len(sustain) == 1 and "it_s" in sustain[0]
             else:
                 okk = not took and "it_s = None" in t_ and len(sustain) == 1 and sustain[0].startswith("while True:") and "yield s" in sustain[0]
+                if not okk:
+                    # the number repeated for ever, read by the same loop as a sustain stream
+                    rep_ = [x for x in t_ if x in ("it_s = it.repeat(s)", "it_s = repeat(s)", "it_s = itertools.repeat(s)")]
+                    loops_ = [st_ for st_ in w_.ran if isinstance(st_, ast.For) and unparse(st_.iter) == "it_s"]
+                    okk = not took and len(rep_) == 1 and len(sustain) == 1 and len(loops_) == 1 and not loops_[0].orelse \
+                        and [unparse(b_) for b_ in loops_[0].body] == ["yield %s" % unparse(loops_[0].target)]
             chk.decide(okk and w_.end == "fall", "C19.segments", W("attack"),
                        "sustain given as %s -> %s" % ("an iterable" if it_ else "a number", (sustain[0].replace("\n", " ") if sustain else "?")[:70]),
                        why="a sustain stream gives its first value to the decay and the rest to the sustain part; a number "
@@ -799,5 +806,8 @@ def _segments(chk, repo, mod, W):
     ok2 = isinstance(tail, ast.If) and unparse(tail.test) == "it_s is None" \
         and unparse(tail.body[0]) == "while True:\n    yield s" and isinstance(tail.orelse[0], ast.For) \
         and unparse(tail.orelse[0].iter) == "it_s"
+    if not ok2 and isinstance(tail, ast.For) and unparse(tail.iter) == "it_s" and not tail.orelse:
+        # one loop for both kinds of sustain (the per-kind rule above says what it_s is)
+        ok2 = [unparse(b_) for b_ in tail.body] == ["yield %s" % unparse(tail.target)]
     chk.decide(ok and ok2, "C19.segments", W("attack"), "attack i/a x int(a+.5), decay 1+i(s-1)/d x int(d+.5), then "
                "sustain forever (or the rest of the sustain stream)", why="attack shape differs", node=at)
